@@ -29,6 +29,12 @@ type schemaCase struct {
 	Types     [][2]string `json:"types"`
 	Enums     [][2]string `json:"enums"`
 	Ops       [][]string  `json:"ops"`
+	// TypeFile: the file name of every type (the types of one API file share its name); absent = the type's own name
+	TypeFile string `json:"type_file"`
+	// Preload: type objects queried (UsedUserTypes) before anything is added anywhere: they are loaded earlier than the others
+	Preload []string `json:"preload"`
+	// Hold: types declared in "types" but not added by the set-up (op "addknown" adds one later)
+	Hold []string `json:"hold"`
 }
 
 func astJSON(n jschema.ASTNode) interface{} {
@@ -126,12 +132,27 @@ func init() {
 			var order []string
 			for _, t := range c.Types {
 				text := dec(t[1])
+				fname := t[0]
+				if c.TypeFile != "" {
+					fname = c.TypeFile
+				}
 				if len(text) > 0 && text[0] == '/' {
 					types[t[0]] = regex.New(t[0], text, regex.WithGeneratorSeed(1))
 				} else {
-					types[t[0]] = mk(t[0], text)
+					types[t[0]] = mk(fname, text)
 				}
-				order = append(order, t[0])
+				held := false
+				for _, h := range c.Hold {
+					held = held || h == t[0]
+				}
+				if !held {
+					order = append(order, t[0])
+				}
+			}
+			for _, n := range c.Preload {
+				if t, ok := types[n].(*js.Schema); ok {
+					_, _ = t.UsedUserTypes()
+				}
 			}
 			var setupErr error
 			// private types: [owner, name, text] - a type added to the owner type only (before the owner is added anywhere)
@@ -241,6 +262,36 @@ func init() {
 					}
 				case "addtype":
 					res = append(res, errInfo(root.AddType(op[1], mk(op[1], dec(op[2])))))
+				case "checkfull": // code, position, rendered text and the type the error is attributed to
+					first, _ := keepErr(root.Check())
+					res = append(res, first)
+				case "addrule": // AddRule after the earlier ops of the history
+					res = append(res, errInfo(root.AddRule(op[1], enum.New(op[1], dec(op[2])))))
+				case "addknown": // AddType of one of the case's type objects (declared in "types" but held back by "hold")
+					if t, ok := types[op[1]]; ok {
+						res = append(res, errInfo(root.AddType(op[1], t)))
+					} else {
+						res = append(res, "?")
+					}
+				case "typecheck", "typeexample", "typeast", "typeused": // an operation on a type object itself
+					t, ok := types[op[1]].(*js.Schema)
+					if !ok {
+						res = append(res, "?")
+						break
+					}
+					switch op[0] {
+					case "typecheck":
+						res = append(res, errInfo(t.Check()))
+					case "typeexample":
+						_, err := t.Example()
+						res = append(res, errInfo(err))
+					case "typeast":
+						_, err := t.GetAST()
+						res = append(res, errInfo(err))
+					default:
+						_, err := t.UsedUserTypes()
+						res = append(res, errInfo(err))
+					}
 				default:
 					res = append(res, "?")
 				}
